@@ -211,3 +211,46 @@ func (ex *Exec) LoadElem(st *State, sv *SliceVal, i int64) Val {
 	}
 	return ex.CellToValue(c, t)
 }
+
+// IsLeaf reports whether p addresses an abstract leaf cell (not an aggregate).
+func (ex *Exec) IsLeaf(st *State, p *Ptr) bool {
+	c := ex.LoadCell(st, p)
+	return c != nil && c.Kids == nil && c.Arr == nil && c.symIdx == nil
+}
+
+// CallModel invokes the configured intercept of fn (the upper-layer specification) on args.
+func (ex *Exec) CallModel(st *State, fn *ssa.Function, args []Val) (out Outcome, err error) {
+	ic, ok := ex.Cfg.Intercepts[fn.String()]
+	if !ok {
+		return Outcome{}, fmt.Errorf("no model for %s", fn)
+	}
+	defer func() {
+		if r := recover(); r != nil {
+			if _, ok := r.(deadSignal); ok {
+				out = Outcome{}
+				return
+			}
+			panic(r)
+		}
+	}()
+	fr := ex.newFrame(fn, nil, nil)
+	ex.topFrame, ex.cur, ex.curState = fr, fr, st
+	v, handled := ic(ex, &CallCtx{St: st, Fn: fn, Name: fn.String(), Args: args, Frame: fr, Pos: fn.Pos()})
+	if !handled {
+		return Outcome{}, fmt.Errorf("model for %s declined", fn)
+	}
+	return Outcome{Ret: &RetAt{St: st, Results: v}, RetCond: sym.ConstBool(true)}, nil
+}
+
+// ByteArrayPtr returns a *[n]byte argument holding the byte string t.
+func (ex *Exec) ByteArrayPtr(st *State, t *sym.Term, name string) *Ptr {
+	sv := ex.BytesToSlice(st, t, name)
+	return &Ptr{Obj: sv.Base.Obj, Path: sv.Base.Path, View: true}
+}
+
+// SymBytes makes a byte-string symbol of known length.
+func SymBytes(name string, n int, taint uint64) *sym.Term {
+	t := sym.SymT(sym.Bytes, name, taint)
+	sym.SetBytesLen(t, n)
+	return t
+}
